@@ -46,6 +46,12 @@ def run(ctx) -> None:
     from . import c09
 
     ctx.reuse("C01.record-volume", c09.validator_numbers)
+    # records and tracking pair the same wells with the same volumes (no recycling of wells inside the labware), and the
+    # Fluent numbering of troughs follows the trough predicate
+    from . import c04, c08
+
+    ctx.reuse("C01.pair-AD", c04.pairing_family)
+    ctx.reuse("C01.numbering", c08.trough_predicate)
     ctx.reuse("C01.composition", c05.mix_args)
     ctx.reuse("C01.composition", c05.mix_formula)
     ctx.reuse("C01.composition", c05.local_write)
